@@ -722,8 +722,8 @@ theorem skel_IO__receive : Gen.Skel.IO__receive =
     "r:_running", "call:_running.clear", "endif", "endtry", "return"] := by decide
 
 theorem skel_IO_write_to_socket : Gen.Skel.IO_write_to_socket =
-  ["acq:_wr_lock", "try", "while", "do", "try", "if", "r:socket", "then", "raise:socket.error",
-    "endif", "r:socket", "call:socket.send", "if", "then", "raise:socket.error", "endif",
+  ["acq:_wr_lock", "try", "while", "do", "try", "r:socket", "if", "then", "raise:socket.error",
+    "endif", "call:sock.send", "if", "then", "raise:socket.error", "endif",
     "except:socket.timeout", "except:socket.error", "if", "then", "continue", "endif",
     "r:_exceptions", "call:_exceptions.append", "return", "endtry", "endwhile", "finally",
     "rel:_wr_lock", "endtry"] := by decide
